@@ -58,6 +58,22 @@ CHECKS = {
              're-encode to the same length) is evaluated on the real code under ASan/UBSan with an allocation-recording operator new.',
         note='The induction `no fault for every schema` is the stated target. Real memory use and UB are runtime facts observed by sanitizers, not theorems.',
         technique='Lean 4 proof over an abstract machine + differential correspondence with compiled C++ under sanitizers', ref='5/C07'),
+    'C08': dict(
+        text='Lean 4 theorems about the packed-layout rule used by the model (a field offset is the sum of the sizes before it; every part '
+             'size is a multiple of its alignment); the model of prophyc/generators/cpp.py translate_struct/translate_union + model.partition '
+             '+ the g++ aligned/packed rule is tied to the code by comparing it with offsetof/sizeof printed by a program compiled from the '
+             'generated header; the property (every member at its wire offset relative to its struct/part, sizeof = wire size for fixed '
+             'types) is evaluated on the compiled header against Spec.blockOffsets.',
+        note='g++ 12 x86-64 ABI only (the platform available). The induction `offsets = Spec offsets for every schema` is the stated target.',
+        technique='Lean 4 proof over an executable model of generated code + differential correspondence with compiled C++', ref='5/C08'),
+    'C09': dict(
+        text='Lean 4 theorems: swapping a k-byte scalar in place turns its big-endian bytes into its little-endian bytes and touches nothing '
+             'else, at any position of any buffer; scalar swap is an involution. The model of the generated swap functions (parts, cast<>, '
+             'swap_n_fixed/dynamic, union switch, optional flag) is tied to the code by running the real generated prophy::swap (g++, '
+             'ASan+UBSan) on big-endian canonical encodings in red-zoned buffers; the property is evaluated on the real code against the '
+             'little-endian canonical encoding, tail bytes, red zones and returned pointer.',
+        note='Known finding D23 (part end aligned to its own alignment) matched by schema shape. The bit-twiddling of prophy::swap(uint32_t*/uint64_t*) is tied by correspondence only (no T1 table).',
+        technique='Lean 4 proof over an executable model of generated code + differential correspondence with compiled C++', ref='5/C09'),
     'C14': dict(
         text='Lean 4 theorems over tables regenerated from the sources on every run (the yacc precedence tables of the prophy parser '
              'and of calc are equal and are exactly the levels of the model parser; every binop action applies the integer operator, '
